@@ -490,7 +490,7 @@ pub fn def() -> CheckDef {
                states, all tick spacings incl. full-range-only), replayed as the same instruction history in four packagings (encodings as generated / flipped / all fixed / \
                all dynamic; empty arrays absent or created on-chain), then one swap.  (1) Metamorphic: abstract state after the history and the swap outcome (amounts, pool \
                fields, every initialized tick, crossed list) identical across packagings and across per-call variations (permuted account order, arrays passed as v2 \
-               supplemental accounts); reduced supply fails, equals the full outcome, or stops inside the shortened window having crossed exactly the initialized ticks up to its end price (no liquidity skipped); an initialized array of another pool is rejected.  (2) Reference walk over the \
+               supplemental accounts); reduced supply fails, equals the full outcome, or stops inside the shortened window having crossed exactly the initialized ticks up to its end price (no liquidity skipped); an initialized array of another pool is rejected, in a fixed slot and as a supplemental account next to a complete own supply.  (2) Reference walk over the \
                sorted abstract tick set with the three-array window rule: amounts, final price, tick, liquidity, fee growth, protocol fee and the crossed-tick list must \
                equal the program's; exactly the crossed ticks changed, each once.  Non-trivial = >=2 crossings spanning >=2 arrays.  Adaptive-fee pools are covered by C14.",
         assumptions: vec!["nsvm runtime as in DESIGN.md §5", "the reference walk uses compute_swap as its step function (decided separately by C02); crossed list from the H2 trace is cross-checked against tick contents"],
